@@ -16,7 +16,7 @@ from .resultrun import Tagged
 from .vennrun import Count, N, Regions, VennInterp, _rat, path_substitution, path_zero_set, run_kernel, universe_xy, universe_xy_skel
 
 INFO = {
-    "explanation": "VENN domain: the kernels are interpreted over sets of Venn regions and exact rational functions of the region cardinalities a=|X\\Y|, b=|Y\\X|, i=|X∩Y| (plus skeleton regions for clDice). (R06.1-3) _compute_dice_coefficient, _compute_iou, _compute_relative_volume_difference equal 2i/((a+i)+(b+i)), i/(a+b+i), ((b+i)-(a+i))/(a+i) on every path wherever the quotient is defined; guarded constants are admissible only where the quotient is undefined or equal to them; (R06.4) clDice is the harmonic mean of |Y∩Sx|/|Sx| and |X∩Sy|/|Sy| with the 2-D/3-D skeleton of the right mask; (R06.5) label selection in _Metric.__call__ and the instance wrappers: reference mask = reference array == reference label, prediction mask = membership in the prediction label(s), labels not narrowed to the array dtype, selection iff both indices given; (R06.6) each Metric member reaches, through its registered wrapper, the kernel of its own formula (end-to-end evaluation), direction flags; (R06.7) derived identities D(1+J)=2J, symmetry, ranges, D>=J, D=J=1 iff a=b=0; (R06.8) no difference of counts is taken in a possibly unsigned numpy scalar. Further delegated: R10.3 (the crop applied before the kernels covers both masks), R15.1/R15.8 (nobody binarises the caller's arrays in place), R15.7 (no state kept in the metric wrapper). Round 7: label masks built by binary search (unique + searchsorted + take == arr) are isin masks iff the labels are sorted and unique; unions are compared as sets; a descending label list is among the cases. Round 8: (R15.8 kernel purity) a metric kernel - and whatever it calls - does not write into the masks it receives; kernels are found through the registry, their core functions through the wrappers.",
+    "explanation": "VENN domain: the kernels are interpreted over sets of Venn regions and exact rational functions of the region cardinalities a=|X\\Y|, b=|Y\\X|, i=|X∩Y| (plus skeleton regions for clDice). (R06.1-3) _compute_dice_coefficient, _compute_iou, _compute_relative_volume_difference equal 2i/((a+i)+(b+i)), i/(a+b+i), ((b+i)-(a+i))/(a+i) on every path wherever the quotient is defined; guarded constants are admissible only where the quotient is undefined or equal to them; (R06.4) clDice is the harmonic mean of |Y∩Sx|/|Sx| and |X∩Sy|/|Sy| with the 2-D/3-D skeleton of the right mask; (R06.5) label selection in _Metric.__call__ and the instance wrappers: reference mask = reference array == reference label, prediction mask = membership in the prediction label(s), labels not narrowed to the array dtype, selection iff both indices given; (R06.6) each Metric member reaches, through its registered wrapper, the kernel of its own formula (end-to-end evaluation), direction flags; (R06.7) derived identities D(1+J)=2J, symmetry, ranges, D>=J, D=J=1 iff a=b=0; (R06.8) no difference of counts is taken in a possibly unsigned numpy scalar. Further delegated: R10.3 (the crop applied before the kernels covers both masks), R15.1/R15.8 (nobody binarises the caller's arrays in place), R15.7 (no state kept in the metric wrapper). Round 7: label masks built by binary search (unique + searchsorted + take == arr) are isin masks iff the labels are sorted and unique; unions are compared as sets; a descending label list is among the cases. Round 8: (R15.8 kernel purity) a metric kernel - and whatever it calls - does not write into the masks it receives; kernels are found through the registry, their core functions through the wrappers. Round 9: the dtype kind of the caller's masks is an input class (b / u / i / f, narrowed by the tests made on it): np.sum without dtype= of a raw mask is an unsigned numpy scalar exactly in the class u, np.sum(dtype=int64) never; skeletonize on 3-D input is skeletonize_3d.",
     "trusted_base": ["numpy primitives of DESIGN appendix A.2 on boolean/0-1 masks", "skimage skeletonize/skeletonize_3d return a subset of their input (not analysed)"],
     "assumptions": ["un-selected inputs are 0/1 or boolean masks (docstrings: 'binary masks')"],
     "not_decided": ["the skeletons themselves", "floating-point rounding"],
